@@ -162,6 +162,90 @@ pub fn run(ctx: &Ctx) -> i32 {
             }
         });
     }
+    // the cel chunk's z-index field is not part of the composition the property defines (layer index order)
+    if ctx.wants_family("z-index") {
+        let zs = [0i16, 1, -1, 2, -2, 32767, -32768];
+        let mut cases: Vec<(usize, usize, usize, u32)> = Vec::new();
+        for a in 0..zs.len() {
+            for b in 0..zs.len() {
+                for c in 0..zs.len() {
+                    for vis in 0..8u32 {
+                        cases.push((a, b, c, vis));
+                    }
+                }
+            }
+        }
+        ctx.family("z-index", cases.len() as u64, "three overlapping, blended layers (Normal / Multiply / Screen) whose cel chunks carry a z-index in {0, 1, -1, 2, -2, 32767, -32768} each (all 343 combinations) x all 8 visibility assignments: composition is by layer index whatever the z-index says", true);
+        cases.par_iter().for_each(|(a, b, c, vis)| {
+            let case = || format!("z=({},{},{}) vis={:03b}", zs[*a], zs[*b], zs[*c], vis);
+            if !ctx.wants("z-index", &case) {
+                return;
+            }
+            let fmt = Fmt::Rgba;
+            let mut f = gen::file(4, 3, &fmt, &[10]);
+            for (l, z) in [*a, *b, *c].iter().enumerate() {
+                let mut ly = Layer::image(&format!("l{}", l));
+                ly.blend = [0u16, 1, 2][l];
+                ly.opacity = [255u8, 200, 180][l];
+                ly.flags = if vis >> l & 1 == 1 { 3 } else { 2 };
+                f.frames[0].chunks.insert(l, Chunk::new(Body::Layer(ly)));
+                let mut cel = raw_cel(l as u16, l as i16 - 1, l as i16 - 1, 255 - 20 * l as u8, 3, 3, opaque_pixels(&fmt, 3, 3, l as u32 + 1, (0, 0)));
+                if let Body::Cel(cc) = &mut cel {
+                    cc.z_index = zs[*z];
+                }
+                f.frames[0].push(cel);
+            }
+            conform(ctx, "z-index", &case, &f, &want);
+        });
+    }
+    // every assignment of {absent, own pixels, link to another frame} to the cells of a 3-frame x 2-layer sprite
+    if ctx.wants_family("link-grid") {
+        // per layer: option per frame: 0 absent, 1 raw, 2.. link to frame (k-2)
+        let mut per_layer: Vec<[u8; 3]> = Vec::new();
+        for a in 0..5u8 {
+            for b in 0..5u8 {
+                for c in 0..5u8 {
+                    let v = [a, b, c];
+                    let ok = (0..3).all(|f| {
+                        let o = v[f];
+                        o < 2 || ((o - 2) as usize != f && v[(o - 2) as usize] == 1)
+                    });
+                    if ok {
+                        per_layer.push(v);
+                    }
+                }
+            }
+        }
+        let cases: Vec<(usize, usize, u8)> = (0..per_layer.len()).flat_map(|a| (0..per_layer.len()).flat_map(move |b| (0..2u8).map(move |m| (a, b, m)))).collect();
+        ctx.family("link-grid", cases.len() as u64, &format!("3 frames x 2 layers: every valid assignment of {{absent, own pixels, link to another frame holding own pixels}} to each cell ({} per layer, all pairs) x upper layer mode {{Normal, Multiply}}; frames rendered front to back and, on a second load, cel images first and frames back to front", per_layer.len()), true);
+        cases.par_iter().for_each(|(a, b, m)| {
+            let case = || format!("layer0={:?} layer1={:?} mode={}", per_layer[*a], per_layer[*b], m);
+            if !ctx.wants("link-grid", &case) {
+                return;
+            }
+            let fmt = Fmt::Rgba;
+            let mut f = gen::file(3, 2, &fmt, &[10, 20, 30]);
+            f.frames[0].push(Body::Layer(Layer::image("l0")));
+            let mut l1 = Layer::image("l1");
+            l1.blend = *m as u16;
+            l1.opacity = 210;
+            f.frames[0].push(Body::Layer(l1));
+            for (l, v) in [per_layer[*a], per_layer[*b]].iter().enumerate() {
+                for fr in 0..3usize {
+                    match v[fr] {
+                        0 => {}
+                        1 => {
+                            f.frames[fr].push(raw_cel(l as u16, (fr as i16) - 1, l as i16, 255 - 30 * fr as u8, 2, 2, pixels(&fmt, 2, 2, (l * 3 + fr) as u32 + 1, (0, 0))));
+                        }
+                        t => {
+                            f.frames[fr].push(link_cel(l as u16, 1, 1, 200, (t - 2) as u16));
+                        }
+                    }
+                }
+            }
+            conform(ctx, "link-grid", &case, &f, &want);
+        });
+    }
     nested(ctx, thorough);
     offsets(ctx, thorough);
     opacities(ctx);
